@@ -57,11 +57,17 @@ def oracle_cases(tier, rng):
                     # all levels present, and a level given as None (must use the column pair along the rows axis and the row pair along the last axis too)
                     for mask in [None, tuple([1] + [0] * (J - 1)), tuple([0] * (J - 1) + [1])][: (3 if J > 1 else 2)]:
                         yield dict(kind='2d', wave=wc, wave_row=wr, mode=mode, J=J, H=H, W=W, none=mask, axes=[(H, Lc), (W, Lr)], seed=int(rng.integers(1 << 30)))
+    # many channels / batch items
+    for mode in MODES5:
+        for (nb, C) in ((1, 70), (9, 2)):
+            for mask in (None, (1, 0)):
+                yield dict(kind='1d', wave='db2', mode=mode, J=2, N=19, none=mask, nb=nb, C=C, axes=[(19, 4)], seed=int(rng.integers(1 << 30)))
+                yield dict(kind='2d', wave='db2', mode=mode, J=2, H=10, W=13, none=mask, nb=nb, C=C, axes=[(10, 4), (13, 4)], seed=int(rng.integers(1 << 30)))
 
 
 def strat_key_(cfg):
     L = cfg['axes'][0][1]; n = cfg['axes'][0][0]
-    return '%s%s/%s/J%d/%s/%s/%s' % (cfg['kind'], '-mixed' if cfg.get('wave_row') else '', cfg['mode'], cfg['J'], 'short' if n < L else 'long', 'odd' if n % 2 else 'even', 'none' if cfg['none'] else 'full')
+    return '%s%s/%s/J%d/%s/%s/%s' % (cfg['kind'], '-mixed' if cfg.get('wave_row') else '', cfg['mode'], cfg['J'], 'short' if n < L else 'long', 'odd' if n % 2 else 'even', 'none' if cfg['none'] else 'full') + ('/many%dx%d' % (cfg['nb'], cfg['C']) if cfg.get('C') else '')
 strat_key = strat_key_
 
 
@@ -82,16 +88,18 @@ def oracle_run(cfg):
     try:
         if cfg['kind'] == '1d':
             sh = shapes_1d(cfg['N'], J, L, mode)
-            yh = [r.standard_normal((2, 2, n)) for n in sh]
-            yl = r.standard_normal((2, 2, sh[-1]))
+            nbc = (cfg.get('nb', 2), cfg.get('C', 2))
+            yh = [r.standard_normal(nbc + (n,)) for n in sh]
+            yl = r.standard_normal(nbc + (sh[-1],))
             got = DWT1DInverse(wave=wn, mode=lib_mode(cfg))((torch.tensor(yl), [None if m else torch.tensor(h) for m, h in zip(mask, yh)])).numpy()
             want = pywt.waverec([yl] + [np.zeros_like(h) if m else h for m, h in zip(mask, yh)][::-1], wn, mode=mode, axis=-1)
             ext = (cfg['N'],)
         else:
             Lr = pywt.Wavelet(cfg['wave_row']).dec_len if cfg.get('wave_row') else L
             shh, shw = shapes_1d(cfg['H'], J, L, mode), shapes_1d(cfg['W'], J, Lr, mode)
-            yh = [r.standard_normal((1, 2, 3, a, b)) for a, b in zip(shh, shw)]
-            yl = r.standard_normal((1, 2, shh[-1], shw[-1]))
+            nbc = (cfg.get('nb', 1), cfg.get('C', 2))
+            yh = [r.standard_normal(nbc + (3, a, b)) for a, b in zip(shh, shw)]
+            yl = r.standard_normal(nbc + (shh[-1], shw[-1]))
             from props import c01
             got = DWTInverse(wave=c01.wave_arg(cfg, 'rec'), mode=lib_mode(cfg))((torch.tensor(yl), [None if m else torch.tensor(h) for m, h in zip(mask, yh)])).numpy()
             ref = [yl] + [tuple((np.zeros_like(h) if m else h)[:, :, b] for b in range(3)) for m, h in zip(mask, yh)][::-1]
